@@ -114,8 +114,8 @@ def run(ctx):
         vh = [L for L in hostile if L['fmt'] == 'vhdx']
         rnd.shuffle(vh)
         # one of every combination of the announced-length family, a sample of the rest
-        special = [L for L in vh if (L.get('meta_len') != '1048576' or L.get('item_flags', '0') != '0' or L['item_off'] < 65536)
-                   and L['item_len'] == '2^32-1']
+        special = [L for L in vh if ((L.get('meta_len') != '1048576' or L.get('item_flags', '0') != '0' or L['item_off'] < 65536)
+                                     and L['item_len'] == '2^32-1') or L.get('rpost_len', '1048576') != '1048576']
         hostile = keep + special + [L for L in vh if L not in special][:24]
     items = [(i, 'layout', L) for i, L in enumerate(hostile)]
     nfuzz = 250 if quick else 3000
